@@ -92,6 +92,10 @@ type Prop struct {
 	// this property itself (parsers, C01); otherwise crashes are attributed to
 	// C01 and the case is excluded (counted).
 	CrashIsViolation bool
+	// HangTag, when set, names the class of a case whose render does not return: the tag is appended to
+	// the hang signature, so that hangs of a class of inputs that never hangs on the unchanged tree are
+	// not filed under a listed hang of the same package.
+	HangTag func(c interface{}) string
 	// ImportantLabels must each reach at least 1 % of the cases.
 	ImportantLabels []string
 	// Assumptions copied into evidence.
@@ -226,6 +230,9 @@ func RunGuarded(p *Prop, c interface{}) (v Verdict, hung bool) {
 		return v, false
 	case <-timer.C:
 		site := hangSite()
+		if p.HangTag != nil {
+			site += p.HangTag(c)
+		}
 		return Verdict{Sig: cleanSig("hang:" + site), Msg: "no return within " + p.CaseTimeout.String() + " (stack stays inside " + LastHangDetail + ")", Crash: true}, true
 	}
 }
